@@ -538,50 +538,51 @@ def c15(run):
         run.record_and_validate("Ownership-%d" % nn, "Trace_Ownership", "Trace_Ownership.n%d.cfg" % nn,
                                 n_files=2 if q else 8, n_events=4000 if q else 15000)
     path, descs = _destructure_descs(run, run.tier)
-    ps = progs.ProgSet(run, "C15-destructure", prelude=gd.LEDGER_PRELUDE)
-    for r in descs:
-        if r["verdict"] != "Accepted":
-            continue
-        flavors = ["plain", "typed"]
-        if r["shape"] == "braced":
-            flavors += ["packed"] + (["generic"] if r["n"] > 0 else [])
-        if r["shape"] == "tuple_struct":
-            flavors += ["packed"] + (["generic"] if r["n"] > 0 else [])
-        for fl in flavors:
-            body, exp = gd.runtime_case(r, fl)
-            ps.add(body, exp, dict(r, flavor=fl, mac="destructure!"))
-        body, exp = gd.const_case(r, "plain")
-        ps.add(body, exp, dict(r, flavor="const", mac="destructure!(const fn)"))
-        if r["shape"] in ("braced", "tuple_struct") and r["n"] > 0:
-            # packed aggregates: the field reads must be unaligned reads (only the const evaluator / Miri can tell)
-            body, exp = gd.const_case(r, "packed")
-            ps.add(body, exp, dict(r, flavor="const-packed", mac="destructure!(const fn, packed)"))
-    # the by-value array map / from_fn: per-element drop counts after every way the closure can leave (ArrayBuild.tla ledger)
-    import gen_arraybuild as ga
-    about = vec("C15-ArrayBuild.ndjson")
-    if os.path.exists(about):
-        os.remove(about)
-    run.mc("MC_ArrayBuild", "ArrayBuild.cfg", env={"OUT": about}, heap="2g", timeout=600)
-    seen = set()
-    for l in open(about):
-        r = json.loads(l)
-        key = (r["form"], r["n"], r["exit"], r["pos"], r["pc"])
-        if key in seen:
-            continue
-        seen.add(key)
-        for body, exp, rec in ga.byval_ledger_cases(r):
-            ps.add(body, exp, rec)
-    ps.execute()
+    for dbg in (True, False):        # second pass: caller and library built without debug assertions
+        ps = progs.ProgSet(run, "C15-destructure" if dbg else "C15-destructure-release", prelude=gd.LEDGER_PRELUDE, debug_assertions=dbg)
+        for r in descs:
+            if r["verdict"] != "Accepted":
+                continue
+            flavors = ["plain", "typed"]
+            if r["shape"] == "braced":
+                flavors += ["packed"] + (["generic"] if r["n"] > 0 else [])
+            if r["shape"] == "tuple_struct":
+                flavors += ["packed"] + (["generic"] if r["n"] > 0 else [])
+            for fl in flavors:
+                body, exp = gd.runtime_case(r, fl)
+                ps.add(body, exp, dict(r, flavor=fl, mac="destructure!"))
+            body, exp = gd.const_case(r, "plain")
+            ps.add(body, exp, dict(r, flavor="const", mac="destructure!(const fn)"))
+            if r["shape"] in ("braced", "tuple_struct") and r["n"] > 0:
+                # packed aggregates: the field reads must be unaligned reads (only the const evaluator / Miri can tell)
+                body, exp = gd.const_case(r, "packed")
+                ps.add(body, exp, dict(r, flavor="const-packed", mac="destructure!(const fn, packed)"))
+        # the by-value array map / from_fn: per-element drop counts after every way the closure can leave (ArrayBuild.tla ledger)
+        import gen_arraybuild as ga
+        about = vec("C15-ArrayBuild.ndjson")
+        if os.path.exists(about):
+            os.remove(about)
+        run.mc("MC_ArrayBuild", "ArrayBuild.cfg", env={"OUT": about}, heap="2g", timeout=600)
+        seen = set()
+        for l in open(about):
+            r = json.loads(l)
+            key = (r["form"], r["n"], r["exit"], r["pos"], r["pc"])
+            if key in seen:
+                continue
+            seen.add(key)
+            for body, exp, rec in ga.byval_ledger_cases(r):
+                ps.add(body, exp, rec)
+        ps.execute()
     run.samples.append({"descriptor": descs[len(descs) // 2]})
     run.assumptions += [BOUNDED, "the drop ledger lives in the harness' element type (per-id created/dropped counts, "
                         "12-byte payload derived from the id)", "panicking paths are not completed paths (no leak check)"]
 
 
 # ------------------------------------------------------------------------------------------- C11
-def _arraybuild_programs(run, descs, name):
+def _arraybuild_programs(run, descs, name, debug_assertions=True):
     import progs
     import gen_arraybuild as ga
-    ps = progs.ProgSet(run, name)
+    ps = progs.ProgSet(run, name, debug_assertions=debug_assertions)
     for r in descs.values():
         if run.tier == "quick" and r["ending"] == "loop" and not (r["n"] == 2 and r["pos"] == 1):
             continue        # non-terminating programs cost a timeout each: quick keeps one per macro
@@ -621,6 +622,8 @@ def c11(run):
         descs[(r["form"], r["n"], r["exit"], r["pos"])] = r
     run.samples += list(descs.values())[:3]
     _arraybuild_programs(run, descs, "C11-arraybuild").execute()
+    # the same programs with the caller's crate built without debug assertions (the guards must be real assertions)
+    _arraybuild_programs(run, descs, "C11-arraybuild-release", debug_assertions=False).execute()
     # collect_const!: "an array whose length and contents equal collecting the same iterator" for every adapter chain
     # of the iterator-DSL grammar up to depth 2 (the descriptors of IterDsl.tla with the consumer `collect`)
     dsl, coll = vec("C11-IterDsl-d2.ndjson"), vec("C11-IterDsl-collect.ndjson")
@@ -632,12 +635,13 @@ def c11(run):
             if json.loads(l)["cons"] == "collect":
                 f.write(l)
     _iterdsl_programs(run, coll, "C11-collect").execute()
+    _iterdsl_programs(run, coll, "C11-collect-release", debug_assertions=False).execute()
     run.assumptions += [BOUNDED, "closure exits are generated from a fixed template (exit statement at a chosen "
                         "element); a 3 s timeout stands for non-termination"]
 
 
 # ------------------------------------------------------------------------------------------- C10
-def _iterdsl_programs(run, path, name, limit=None, seed=1, alt_sources=False):
+def _iterdsl_programs(run, path, name, limit=None, seed=1, alt_sources=False, debug_assertions=True):
     import progs
     import random
     import gen_iterdsl as gi
@@ -659,7 +663,7 @@ def _iterdsl_programs(run, path, name, limit=None, seed=1, alt_sources=False):
         rest = [r for r in lines if not interacting(r)]
         random.Random(seed).shuffle(rest)
         lines = pri + rest[:max(0, limit - len(pri))]
-    ps = progs.ProgSet(run, name, prelude=gi.USER_PRELUDE if alt_sources else "")
+    ps = progs.ProgSet(run, name, prelude=gi.USER_PRELUDE if alt_sources else "", debug_assertions=debug_assertions)
     for k_line, r in enumerate(lines):
         cs = gi.case(r)
         if cs is None:
@@ -1047,6 +1051,7 @@ def c01(run):
         r = json.loads(l)
         adescs[(r["form"], r["n"], r["exit"], r["pos"])] = r
     _arraybuild_programs(run, adescs, "C01-arraybuild").execute()
+    _arraybuild_programs(run, adescs, "C01-arraybuild-release", debug_assertions=False).execute()
     # (3) const evaluation of the const-fn surface
     ps = progs.ProgSet(run, "C01-consteval")
     import re as _re
